@@ -748,6 +748,21 @@ impl OnceLock<usize> {
             final(w).id_floor() == old(w).id_floor(), final(w).chan_floor() == old(w).chan_floor(),
             final(w).dl_count() == old(w).dl_count(), final(w).own_strong() == old(w).own_strong(), final(w).cells() == old(w).cells(),
     { unimplemented!() }
+    /// get_or_init: a READ that WRITES when the cell is empty (the value of `f`), after which `set` can never succeed again
+    #[verifier::external_body]
+    pub fn get_or_init<F: FnOnce() -> usize>(&self, f: F, w: &mut World) -> (r: &usize)
+        requires
+            f.requires(()),
+        ensures
+            old(w).cap_cell() matches Some(v) ==> (*r == v && final(w).cap_cell() == old(w).cap_cell()
+                && final(w).log() == old(w).log().push(Eff::CellGet(self.cell(), Some(v)))),
+            old(w).cap_cell() is None ==> (f.ensures((), *r) && final(w).cap_cell() == Some(*r)
+                && final(w).log() == old(w).log().push(Eff::CellGet(self.cell(), None::<usize>)).push(Eff::CellSet(self.cell(), *r, true))),
+            final(w).current_actor() == old(w).current_actor(), final(w).lock_held() == old(w).lock_held(),
+            final(w).poisoned() == old(w).poisoned(), final(w).graph() == old(w).graph(), final(w).mmon() == old(w).mmon(),
+            final(w).id_floor() == old(w).id_floor(), final(w).chan_floor() == old(w).chan_floor(),
+            final(w).dl_count() == old(w).dl_count(), final(w).own_strong() == old(w).own_strong(), final(w).cells() == old(w).cells(),
+    { unimplemented!() }
     #[verifier::external_body]
     pub fn get(&self, w: &mut World) -> (r: Option<&usize>)
         ensures
